@@ -18,6 +18,12 @@ CHECKS = {
              text="Commands are made to fail (several exit codes, with/without touching outputs) and the containment, exit-status, logging and retry clauses are checked on the trace and on the re-loaded logs.", ref="4/C05", note=SIM_NOTE),
  "C06": dict(level="exploration", engine="SIM", technique="trace-invariant property testing (limits, once-only, retrospective no-idle, termination)",
              text="Concurrency and pool limits, at-most-once, no idle slot and termination are checked on traces of generated builds with pools, faults and schedules.", ref="4/C06", note=SIM_NOTE),
+ "C08": dict(level="fault_enumeration", engine="LOG", technique="stateful property testing (Hypothesis) of BuildLog sessions with every-offset truncation, oracle = reference fold over complete lines",
+             text="Generated multi-session histories on a real .ninja_log; the file is cut at every byte offset (exhaustive for files up to 4 KiB) and torn tails are continued by later sessions; what ninja loads is compared with an independent fold over the complete lines of the same bytes; recompaction, restat and unsupported versions are checked clause by clause.",
+             ref="4/C08", note="Trusted base: M-buildlog in verif/props/C08.py, the probe's op interpreter (cxx/probe_misc.h). Command hashes are ninja's own; lines >= 256 KiB may be dropped (documented)."),
+ "C09": dict(level="fault_enumeration", engine="LOG", technique="stateful property testing of DepsLog sessions with every-offset truncation, garbage tails and structured damage, oracle = independent binary-format parser + recorded-deps model",
+             text="Generated multi-session histories on a real .ninja_deps; every truncation offset (exhaustive up to 3000 bytes), random tails and structurally malformed records after a valid prefix, each continued by an appending session and a reload; deps loaded == fold of complete well-formed records == most recently recorded deps; file size after recovery == end of last good record.",
+             ref="4/C09", note="Trusted base: M-depslog parser in verif/props/C09.py, the probe's op interpreter. Two genuine defects found by this check were repaired (fix: commits 33f8d0f, 9f3b7db)."),
  "C14": dict(level="exploration", engine="enumerator+libFuzzer", technique="exhaustive enumeration over {a,b,.,/}^<=L plus coverage-guided fuzzing, oracle = reference normaliser + laws",
              text="Every string over the structural alphabet up to a bound is compared with a 12-line reference normaliser and the algebraic laws; libFuzzer extends to arbitrary bytes and very long paths with the same oracle inside the target.", ref="4/C14",
              note="Trusted base: cxx/ref_canon.h (reference), ASan/UBSan. POSIX build only."),
@@ -25,6 +31,8 @@ CHECKS = {
 ENGINES = [
  dict(name="SIM", path="cxx/probe_sim.h + verif/simrun.py", serves_properties=["C01", "C02", "C03", "C04", "C05", "C06"],
       kind_free_text="in-process build simulator: virtual disk with logical clock, scripted command runner owning the schedule, real log files; forked per request by the probe server"),
+ dict(name="LOG", path="cxx/probe_misc.h (buildlog/depslog op interpreters) + verif/props/C08.py, C09.py", serves_properties=["C08", "C09"],
+      kind_free_text="real BuildLog/DepsLog objects on real files driven by generated op lists inside the forked probe; files are cut from outside at every offset"),
  dict(name="enumerator+libFuzzer", path="cxx/enum_*.cc, cxx/fuzz_*.cc, verif/fuzz.py", serves_properties=["C14"],
       kind_free_text="bounded-exhaustive enumerators and libFuzzer targets with the semantic oracle inside the target"),
 ]
